@@ -87,7 +87,7 @@ func isAtextByte(c byte) bool {
 }
 
 var trickyLocals = []string{"plain", "dot.ted", "a b", "a b>c", "x<y", "semi;colon", "com,ma", "co:lon", "at@sign", "back\\slash", "quo\"te", "(paren)", "trailing.", ".leading", "dou..ble",
-	"ümlaut", "日本", "tab\there", "a>b c<d", "\"", "\\", " ", "MAIL FROM:<x@y>", "a> SIZE=1", "a@b>", "<>",
+	"ümlaut", "日本", "عل\u200cرضا", "soft\u00adhyphen", "zw\u200bsp", "bom\ufeff", "rtl\u202eabc", "j\u200doin", "tab\there", "a>b c<d", "\"", "\\", " ", "MAIL FROM:<x@y>", "a> SIZE=1", "a@b>", "<>",
 	"Ops@NOC", "First.Last@Dept", "UPPER", "Mixed.Case+Tag", "a@B@c", "bob%example.org", "100%.off+news", "sales%%eu", "%s", "%d%v", "a%!b", "pct %s in quotes", "%[1]s", "%"}
 
 func quoteForHeader(local string) string {
@@ -303,6 +303,10 @@ func init() {
 			for i := 0; i < n; i++ {
 				r := c.Rng
 				spc := &MsgSpec{}
+				if r.Chance(50) {
+					// the equivalent entry points of the API, a message that was used and Reset before, ...
+					spc.Variant = r.U64() | 1
+				}
 				spc.Parts = []PartSpec{{CType: "text/plain", Content: []byte("body")}}
 				nops := 1 + r.Intn(12)
 				for k := 0; k < nops; k++ {
